@@ -19,12 +19,15 @@ RULE = ("exact-regime meshes 1-4 d with 0-3 existing (overlapping/touching) subr
         "is_aligned on pairs with whole-cell / fractional offsets and equal / unequal cells; (sel) plane and range selections at "
         "interior coordinates, on subregion faces and region boundary: kept set and clipped extents computed independently in exact "
         "arithmetic; (name) mesh[name]; (history) transformation histories from C13's generator with SubInv after every step; "
-        "(persist) JSON side-car and HDF5 reload; (scale) the same setter cases at length scales 1e6 and 1e-12 (known finding D18). "
+        "(persist) JSON side-car (file tree vs model saveSubs; load into the same / renamed / shifted mesh vs model loadSubs) and HDF5 reload; (scale) the same setter cases at length scales 1e6 and 1e-12 (known finding D18). "
         "non-trivial = at least one subregion or candidate that is not the whole region")
-TRUSTED = ["harness/c14.py, harness/tcommon.py + driver JSON glue", "json / h5py persistence is observed, not modelled"]
+TRUSTED = ["harness/c14.py, harness/tcommon.py + driver JSON glue",
+           "JSON side-car: the value tree is modelled (saveSubs / loadSubs, compared with the file written / the mesh loaded by the real code); the text layer (json.dump/json.load, repr of binary64) is trusted",
+           "h5py persistence is observed, not modelled"]
 ASSUMPTIONS = ["dyadic corners and cells: alignment remainders are exact in binary64 at moderate scales"]
-UNPROVED = ["SubInv preservation under rotate90 and under Mesh.sel is decided by the oracle on live meshes + model correspondence, not by a theorem",
-            "is_aligned uses an absolute 1e-12 tolerance: scale-dependent behaviour is known finding D18"]
+UNPROVED = ["HDF5 subregion tables: round trip observed on the real code only (no model of h5py datasets)",
+            "SubInv is the exact-arithmetic (tolerance 0) reading; what the tolerant setter accepts beyond it is characterised per axis only (aligned_tol_sound / isAligned_sound), and is_aligned's absolute 1e-12 tolerance is known finding D18",
+            "selection theorems are stated for meshes satisfying SubInv; plane/range selections of meshes holding tolerance-accepted but inexact subregions are covered by the correspondence run only"]
 BUDGET = {"quick": 90, "thorough": 900}
 
 
@@ -70,6 +73,44 @@ def gen_candidate(rng, ms, tag):
 
 def scaled_spec(ms, s):
     return dict(ms, p1=[x * s for x in ms["p1"]], p2=[x * s for x in ms["p2"]])
+
+
+def tagged(v):
+    """JSON value -> tagged tree {"n": rational} | {"s": str} | {"a": [..]} | {"o": [[key, value], ..]} (order kept)"""
+    if isinstance(v, _Pairs):
+        return {"o": [[k, tagged(x)] for k, x in v]}
+    if isinstance(v, list):
+        return {"a": [tagged(x) for x in v]}
+    if isinstance(v, str):
+        return {"s": v}
+    if isinstance(v, bool) or v is None:
+        raise ValueError(f"unexpected JSON value {v!r} in subregion side-car")
+    return {"n": Q(v)}
+
+
+class _Pairs(list):
+    pass
+
+
+def read_sidecar(fn):
+    import json
+    with open(fn + ".subregions.json", "rt", encoding="utf-8") as f:
+        return tagged(json.load(f, object_pairs_hook=_Pairs))
+
+
+def tagged_eq(a, b):
+    """tagged trees equal (numbers as exact rationals)"""
+    if set(a) != set(b) or len(a) != 1:
+        return False
+    (k, x), = a.items()
+    y = b[k]
+    if k == "n":
+        return F(x) == F(y)
+    if k == "s":
+        return x == y
+    if k == "a":
+        return len(x) == len(y) and all(tagged_eq(p, q) for p, q in zip(x, y))
+    return len(x) == len(y) and all(p[0] == q[0] and tagged_eq(p[1], q[1]) for p, q in zip(x, y))
 
 
 def cases(rng, tier):
@@ -274,19 +315,26 @@ def run_impl(case):
             if case["fmt"] == "json":
                 fn = os.path.join(d, "f.omf")
                 m.save_subregions(fn)
+                obs["mesh"] = fieldio.mesh_json(m)
+                obs["sidecar"] = read_sidecar(fn)
                 m2 = df.Mesh(region=m.region, n=m.n)
+                obs["m2_before"] = fieldio.mesh_json(m2)
                 m2.load_subregions(fn)
+                obs["m2_after"] = fieldio.mesh_json(m2)
                 # (i) the same side-car attached to a mesh of the same geometry but other names/units
                 nd = m.region.ndim
                 other = df.Mesh(region=df.Region(p1=m.region.pmin, p2=m.region.pmax, dims=[f"q{i}" for i in range(nd)],
                                                  units=["furlong"] * nd), n=m.n)
+                obs["other_before"] = fieldio.mesh_json(other)
                 other.load_subregions(fn)
+                obs["other_after"] = fieldio.mesh_json(other)
                 tc.check_subinv(other, fail, "mesh with other dimension names/units after load_subregions")
                 # (ii) a side-car that does not belong to the mesh is rejected and the previous subregions are kept
                 shifted = df.Mesh(region=df.Region(p1=m.region.pmin + 0.37 * m.cell, p2=m.region.pmax + 0.37 * m.cell), n=m.n)
                 prev = {"keep": df.Region(p1=shifted.region.pmin, p2=shifted.region.pmin + shifted.cell)}
                 shifted.subregions = prev
                 snap0 = tc.snap(shifted)
+                obs["shifted_before"] = fieldio.mesh_json(shifted)
                 try:
                     shifted.load_subregions(fn)
                     fail("side-car whose boxes are off the lattice of the mesh was attached by load_subregions")
@@ -326,6 +374,11 @@ def model_requests(case, obs):
         return [dict(op="sel_plane", mesh=obs["mesh"], ax=case["ax"], x=(None if case["x"] is None else Q(case["x"])))]
     if k == "name":
         return [dict(op="get_name", mesh=obs["mesh"], name=n) for n, _, _ in case["subs"]]
+    if k == "persist" and "sidecar" in obs:
+        return [dict(op="save_subs", mesh=obs["mesh"]),
+                dict(op="load_subs", mesh=obs["m2_before"], sidecar=obs["sidecar"]),
+                dict(op="load_subs", mesh=obs["other_before"], sidecar=obs["sidecar"]),
+                dict(op="load_subs", mesh=obs["shifted_before"], sidecar=obs["sidecar"])]
     return []
 
 
@@ -352,6 +405,16 @@ def compare(case, obs, rs):
             dis.append(f"Mesh.sel: impl {obs['st']} vs model {'ok' if 'ok' in rs[0] else rs[0]}")
         elif obs["st"] == "ok":
             _mesh("Mesh.sel result", obs["res"], rs[0]["ok"], dis)
+    elif k == "persist":
+        if "ok" not in rs[0] or not tagged_eq(obs["sidecar"], rs[0]["ok"]):
+            dis.append(f"save_subregions: file content {obs['sidecar']} vs model {rs[0]}")
+        for key, r in (("m2", rs[1]), ("other", rs[2])):
+            if "ok" not in r:
+                dis.append(f"load_subregions into {key}: impl ok vs model {r}")
+            elif key + "_after" in obs:
+                _mesh(f"load_subregions into {key}", obs[key + "_after"], r["ok"], dis)
+        if "ok" in rs[3]:
+            dis.append("load_subregions of a misfitting side-car: impl err vs model ok")
     elif k == "name":
         for (n, _, _), r in zip(case["subs"], rs):
             if "ok" not in r:
